@@ -10,7 +10,7 @@ from framelint.canon import (Canon, CanonOptions, canon_function, show, S, to_po
                              atoms_of, Sigma, K_TRUE, single_defs, deref, Poly, diff_paths)
 from framelint.kinds import IndexSpec, IndexTyper
 from framelint.cfg import ENTRY, EXIT
-from .common import STROP, FSUTILS, call_name, norm_stmt, stmt_calls, facts_text
+from .common import main_line, STROP, FSUTILS, call_name, norm_stmt, stmt_calls, facts_text
 from .C01 import _alpha
 
 S_ = ("self",)
@@ -23,7 +23,7 @@ def canon_function(fi, model=None, opts=None):   # rules of this file match shap
 
 def _init_blocks(ctx: Ctx):
     f = ctx.func(STROP, "StropInstance.__init__")
-    body = [st for st in f.node.body if not (isinstance(st, ast.Expr) and isinstance(st.value, ast.Constant))]
+    body = main_line(f.node.body)
     fors = [st for st in body if isinstance(st, ast.For)]
     return f, body, fors
 
